@@ -461,6 +461,20 @@ where
       //
       // Without this chek the addition operation below could overflow.
       Err(speedy::Error::custom(format!("NumberSet size too large: {} > 256.", num_bits)).into())
+    } else if i64::from(bitmap_base.clone())
+      .checked_add(num_bits as i64)
+      .map(|end| i64::from(N::from(end)) != end)
+      .unwrap_or(true)
+    {
+      // The largest possible member of the set (base + num_bits - 1) must be
+      // representable, or iterating over the set overflows.
+      Err(
+        speedy::Error::custom(format!(
+          "NumberSet base {:?} + size {} is out of range.",
+          bitmap_base, num_bits
+        ))
+        .into(),
+      )
     } else {
       let word_count = (num_bits + 31) / 32;
       let mut bitmap: Vec<u32> = Vec::with_capacity(word_count as usize);
